@@ -61,16 +61,149 @@ fn record(size: usize) {
     });
 }
 
+// ---------------------------------------------------------------------------
+// Address recycling (C18). Which free block an allocator hands out is nondeterminism the
+// program under test must not depend on. For one size class (the reference-counted buffer header
+// of a SharedString: two counters + a Vec, 40 bytes, align 8) the harness can take that choice
+// away from malloc: freed blocks of the class are parked in a small pool and handed out again
+// oldest-first or newest-first. Any block handed out is a free block, so every behaviour this
+// produces is one the system allocator could produce too.
+
+use std::sync::atomic::{AtomicBool, AtomicU8, Ordering};
+
+const CLASS_SIZE: usize = 40;
+const CLASS_ALIGN: usize = 8;
+const POOL_CAP: usize = 64;
+
+static POLICY: AtomicU8 = AtomicU8::new(0); // 0 off, 1 newest-first, 2 oldest-first
+static POOL_LOCK: AtomicBool = AtomicBool::new(false);
+static mut POOL: [usize; POOL_CAP] = [0; POOL_CAP];
+static mut POOL_LEN: usize = 0;
+
+static mut LOG: [(u8, usize); 256] = [(0, 0); 256];
+static mut LOG_LEN: usize = 0;
+#[allow(static_mut_refs)]
+fn log_ev(k: u8, p: usize) {
+    unsafe {
+        if LOG_LEN < 256 {
+            LOG[LOG_LEN] = (k, p);
+            LOG_LEN += 1;
+        }
+    }
+}
+#[allow(static_mut_refs)]
+pub fn dump_log() {
+    unsafe {
+        for i in 0..LOG_LEN {
+            eprintln!("alloc-log {} {:x}", ["?", "alloc-pool", "alloc-sys", "free-pool", "free-sys"][LOG[i].0 as usize], LOG[i].1);
+        }
+        LOG_LEN = 0;
+    }
+}
+
+#[inline]
+fn in_class(layout: &Layout) -> bool {
+    layout.size() == CLASS_SIZE && layout.align() == CLASS_ALIGN
+}
+
+fn pool_lock() {
+    while POOL_LOCK.compare_exchange_weak(false, true, Ordering::Acquire, Ordering::Relaxed).is_err() {
+        std::hint::spin_loop();
+    }
+}
+
+fn pool_unlock() {
+    POOL_LOCK.store(false, Ordering::Release);
+}
+
+#[allow(static_mut_refs)]
+unsafe fn pool_take(policy: u8) -> Option<*mut u8> {
+    pool_lock();
+    let r = if POOL_LEN == 0 {
+        None
+    } else if policy == 1 {
+        POOL_LEN -= 1;
+        Some(POOL[POOL_LEN] as *mut u8)
+    } else {
+        let p = POOL[0];
+        for i in 1..POOL_LEN {
+            POOL[i - 1] = POOL[i];
+        }
+        POOL_LEN -= 1;
+        Some(p as *mut u8)
+    };
+    pool_unlock();
+    r
+}
+
+#[allow(static_mut_refs)]
+unsafe fn pool_put(ptr: *mut u8) -> bool {
+    pool_lock();
+    let ok = POOL_LEN < POOL_CAP;
+    if ok {
+        POOL[POOL_LEN] = ptr as usize;
+        POOL_LEN += 1;
+    }
+    pool_unlock();
+    ok
+}
+
+/// Sets the recycling policy (0 off, 1 newest-first, 2 oldest-first) and returns every parked
+/// block to the system allocator, so that an execution starts from an empty pool.
+#[allow(static_mut_refs)]
+pub fn recycle(policy: u8) {
+    POLICY.store(0, Ordering::SeqCst);
+    unsafe {
+        pool_lock();
+        let n = POOL_LEN;
+        let blocks = POOL;
+        POOL_LEN = 0;
+        pool_unlock();
+        for b in blocks.iter().take(n) {
+            System.dealloc(*b as *mut u8, Layout::from_size_align_unchecked(CLASS_SIZE, CLASS_ALIGN));
+        }
+    }
+    POLICY.store(policy, Ordering::SeqCst);
+}
+
 unsafe impl GlobalAlloc for Tracking {
     unsafe fn alloc(&self, layout: Layout) -> *mut u8 {
         record(layout.size());
+        if in_class(&layout) {
+            let p = POLICY.load(Ordering::Relaxed);
+            if p != 0 {
+                if let Some(b) = pool_take(p) {
+                    log_ev(1, b as usize);
+                    return b;
+                }
+                let b = System.alloc(layout);
+                log_ev(2, b as usize);
+                return b;
+            }
+        }
         System.alloc(layout)
     }
     unsafe fn dealloc(&self, ptr: *mut u8, layout: Layout) {
+        if in_class(&layout) && POLICY.load(Ordering::Relaxed) != 0 && pool_put(ptr) {
+            log_ev(3, ptr as usize);
+            return;
+        }
+        if in_class(&layout) {
+            log_ev(4, ptr as usize);
+        }
         System.dealloc(ptr, layout)
     }
     unsafe fn alloc_zeroed(&self, layout: Layout) -> *mut u8 {
         record(layout.size());
+        if in_class(&layout) {
+            let p = POLICY.load(Ordering::Relaxed);
+            if p != 0 {
+                if let Some(b) = pool_take(p) {
+                    std::ptr::write_bytes(b, 0, CLASS_SIZE);
+                    return b;
+                }
+            }
+        }
         System.alloc_zeroed(layout)
     }
     unsafe fn realloc(&self, ptr: *mut u8, layout: Layout, new_size: usize) -> *mut u8 {
